@@ -38,7 +38,8 @@ MANIFEST = {
                  "bridge (decide + simp) + exact rational differential correspondence + autograd / dense-solve oracle",
 }
 EXTRA_LEAN_MODULES = ["DirectVerif.Lemmas.C19Ops", "DirectVerif.Lemmas.C19Loglik", "DirectVerif.Lemmas.C19CG",
-                      "DirectVerif.Lemmas.C19Energy", "DirectVerif.Lemmas.C19Term"]
+                      "DirectVerif.Lemmas.C19Energy", "DirectVerif.Lemmas.C19Term", "DirectVerif.Lemmas.C19Batch",
+                      "DirectVerif.Lemmas.C19Sites", "DirectVerif.Lemmas.C19Unnorm"]
 TRUSTED = [
     "Lean 4.33 kernel + Mathlib; axioms ⊆ {propext, Classical.choice, Quot.sound}",
     "harness/translate/recipes/c19.py (Python AST -> Plan; pattern rules for expand/reduce/mask/forward/backward, inlining)",
@@ -301,6 +302,67 @@ def correspondence(ctx: Ctx):
                    "impl": _guard(lambda cgm=cgm, img=img, S=S, m=m, lam=lam: _frac_answer(cgm.B_op(img, S, m, lam).reshape(-1).tolist())),
                    "nontrivial": p.n >= 2, "bucket": f"bop/{p.mode}/mask={p.mask_kind}"}
 
+    # ---- phase 2: the same physics inside the unrolled models / engines (exact, dense operators injected)
+    import types as _types
+
+    from direct.nn.crossdomain.crossdomain import CrossDomainNetwork
+    from direct.nn.iterdualnet.iterdualnet import IterDualNet
+    from direct.nn.jointicnet.jointicnet import JointICNet
+    from direct.nn.lpd.lpd import LPDNet
+    from direct.nn.mri_models import MRIModelEngine
+    from direct.nn.recurrentvarnet.recurrentvarnet import RecurrentVarNetBlock
+    from direct.nn.varnet.varnet import EndToEndVarNetBlock
+    from direct.nn.vsharp.vsharp_engine import VSharpNetEngine
+    from props.c19_sites import _ZeroImage, _ZeroRecurrent
+
+    pair_classes = [JointICNet, IterDualNet, LPDNet, CrossDomainNetwork, MRIModelEngine]
+    for i in range(ctx.budget(120, 1200)):
+        p = Prob(rng)
+        p.mask_dtype = "bool"                       # the engines negate the mask with `~`
+        fop, bop = p.ops()
+        S, m = p.sens(), p.mask_t()
+        me = _types.SimpleNamespace(forward_operator=fop, backward_operator=bop, _coil_dim=1, _spatial_dims=(2, 3), _complex_dim=-1,
+                                    compute_sensitivity_map=lambda s_: s_)
+        which = rng.choice(["softdc-varnet", "softdc-rvn", "aop", "astar", "maskc", "harddc"])
+        x = _gauss(rng, (p.n,), -4, 4, 0.1)
+        k = _gauss(rng, (p.c, p.n), -4, 4, 0.1)
+        y = _gauss(rng, (p.c, p.n), -4, 4, 0.1)
+        img, ksp, ysp = p.image(x), p.kspace(k), p.kspace(y)
+        if which.startswith("softdc"):
+            if which == "softdc-varnet":
+                blk = EndToEndVarNetBlock(fop, bop, _ZeroImage()).double()
+                run = lambda blk=blk, ksp=ksp, ysp=ysp, m=m, S=S: ksp - blk(ksp, ysp, m, S)          # lr = 1: k − out = M(k − y)
+            else:
+                blk = RecurrentVarNetBlock(fop, bop, 2, 4, 1).double()
+                blk.regularizer = _ZeroRecurrent()
+                run = lambda blk=blk, ksp=ksp, ysp=ysp, m=m, S=S: ksp - blk(ksp, ysp, m, S, None)[0]
+            ln_ = line("site", [p.n, p.c, 0], *p.groups(), _cints(k), _cints(y), [])
+        elif which == "aop":
+            cls = rng.choice(pair_classes)
+            which += "/" + cls.__name__
+            run = lambda cls=cls, me=me, img=img, m=m, S=S: cls._forward_operator(me, image=img, sampling_mask=m, sensitivity_map=S)
+            ln_ = line("site", [p.n, p.c, 3], *p.groups(), _cints(x), [], [])
+        elif which == "astar":
+            cls = rng.choice(pair_classes)
+            which += "/" + cls.__name__
+            run = lambda cls=cls, me=me, ksp=ksp, m=m, S=S: cls._backward_operator(me, kspace=ksp, sampling_mask=m, sensitivity_map=S)
+            ln_ = line("site", [p.n, p.c, 4], *p.groups(), _cints(k), [], [])
+        elif which == "maskc":
+            run = lambda me=me, img=img, m=m, S=S: MRIModelEngine._forward_operator(me, img, S, ~m)
+            ln_ = line("site", [p.n, p.c, 10], *p.groups(), _cints(x), [], [])
+        else:
+            me.model = lambda masked_kspace, sampling_mask, sensitivity_map, img=img: [img]
+            data = {"masked_kspace": ysp, "sampling_mask": m, "sensitivity_map": S}
+            run = lambda me=me, data=data: VSharpNetEngine.forward_function(me, data)[1]
+            ln_ = line("site", [p.n, p.c, 7], *p.groups(), _cints(x), _cints(y), [])
+
+        def impl(run=run):
+            with torch.no_grad():
+                return _frac_answer(run().reshape(-1).tolist())
+
+        yield {"line": ln_, "impl": _guard(impl), "nontrivial": p.n >= 2 and p.mask_kind == "random",
+               "bucket": f"site/{which}/mask={p.mask_kind}"}
+
 
 _UPD = ["FR", "PRP", "DY", "BAN"]
 _LAMBDAS = [(1, 20), (1, 16), (1, 10), (1, 4), (1, 2), (1, 1), (2, 1), (3, 1), (5, 1), (10, 1)]
@@ -351,9 +413,57 @@ def custom_correspondence(ctx: Ctx):
         cases.append({"line": ln_, "run": run, "tol": tn / td,
                       "nontrivial": p.n >= 2 and iters >= 1 and p.mask_kind != "empty",
                       "bucket": f"{'forward' if fwd else 'cg'}/{_UPD[ut]}/iters={iters}/mask={p.mask_kind}"})
+    # ---- batches: the stopping test couples the samples (batch mean); model = cgBatch + rational enclosure of the mean
+    import copy
+
+    for i in range(ctx.budget(60, 600)):
+        p0 = Prob(rng, max_n=4, coils=(1, 2))
+        if p0.mode == "arbitrary":
+            p0.mode, p0.B, p0.bden = "unitary", p0.F.conj().T, p0.fden      # (non-adjoint pairs are covered above)
+            if not np.allclose(p0.F @ p0.F.conj().T, p0.fden ** 2 * np.eye(p0.n)):
+                f, d = _unitary(rng, p0.n)
+                p0.F, p0.fden, p0.B, p0.bden = f, d, f.conj().T, d
+        p0.mask_per_coil = False
+        nb = rng.choice([2, 2, 3])
+        probs = []
+        for b_ in range(nb):
+            q = copy.copy(p0)
+            q.S = _gauss(rng, (q.c, q.n))
+            q.mask = [rng.randrange(2) for _ in range(q.n)] if rng.random() < 0.8 else [1] * q.n
+            probs.append(q)
+        fop, bop = p0.ops()
+        ut = rng.choice([0, 0, 1, 1, 2, 3])
+        iters = rng.choice([1, 2, 3])
+        ln, ld = rng.choice(_LAMBDAS)
+        tn, td = rng.choice([(0, 1), (1, 2), (1, 1), (2, 1), (3, 1), (5, 1), (10, 1)])
+        mag = [1, rng.choice([1, 3]), rng.choice([1, 6])][:nb]
+        ys = [_gauss(rng, (q.c, q.n), -3 * a, 3 * a, 0.1) for q, a in zip(probs, mag)]
+        zs = [_gauss(rng, (q.n,), -3 * a, 3 * a, 0.1) for q, a in zip(probs, mag)]
+        x0s = [_gauss(rng, (q.n,), -3 * a, 3 * a, 0.3) for q, a in zip(probs, mag)]
+        S = torch.cat([q.sens() for q in probs])
+        m = torch.cat([torch.tensor(q.mask).reshape(1, 1, q.h, q.w, 1).bool() for q in probs])
+        Y = torch.cat([q.kspace(v) for q, v in zip(probs, ys)])
+        Z = torch.cat([q.image(v) for q, v in zip(probs, zs)])
+        X0 = torch.cat([q.image(v) for q, v in zip(probs, x0s)])
+        lam = torch.tensor([ln / ld], dtype=DT)
+
+        def run(tol, ls=1.0, fop=fop, bop=bop, ut=ut, iters=iters, S=S, m=m, Y=Y, Z=Z, X0=X0, lam=lam):
+            blk = ConjGrad(fop, bop, num_iters=iters, tol=tol, bk_update_type=CGUpdateType(_UPD[ut]))
+            with torch.no_grad():
+                out = blk.cg(X0, Y, S, m, lam * ls, Z)
+            return [float(v) for v in out.reshape(-1).tolist()]
+
+        groups = [_cints(p0.F), [p0.fden], _cints(p0.B), [p0.bden], [ln, ld], [tn, td]]
+        for q, yv, zv, xv in zip(probs, ys, zs, x0s):
+            groups += [_cints(q.S), q.mask, _cints(xv), _cints(yv), _cints(zv)]
+        cases.append({"line": line("cgbatch", [p0.n, p0.c, nb, iters, ut], *groups), "run": run, "tol": tn / td,
+                      "nontrivial": p0.n >= 2, "bucket": f"cgbatch/{_UPD[ut]}/B={nb}/iters={iters}"})
     model = core.run_driver(PROP, [c["line"] for c in cases])
     dis = []
     for c, ans in zip(cases, model):
+        if ans.strip() == "err Borderline":
+            ctx.notes.append("batch stopping statistic inside the rational enclosure, skipped: " + c["line"][:60])
+            continue
         try:
             got = c["run"](c["tol"])
             impl_s = "ok"
@@ -448,10 +558,17 @@ def _loglik_case(prm: dict):
     grad, = torch.autograd.grad(loss, xi)
     grad = grad.permute(0, 3, 1, 2)
     with torch.no_grad():
-        out = blk(x.permute(0, 3, 1, 2), torch.where(m == 0, zero, y) if prm.get("premask", True) else y, S, m,
-                  None if s is None else torch.tensor([s]))
-    factor = (1.0 if prm["normalized"] else 1.0 / (h_ * w_)) * (1.0 if s is None else s)
-    ref = grad * factor
+        st = None if s is None else (torch.tensor(s) if isinstance(s, list) else torch.tensor([s]))
+        out = blk(x.permute(0, 3, 1, 2), torch.where(m == 0, zero, y) if prm.get("premask", True) else y, S, m, st)
+    if isinstance(s, list):                     # per-sample `loglikelihood_scaling` of shape (N,)
+        svec = torch.tensor(s).reshape(-1, 1, 1, 1)
+        smax = max(abs(v) for v in s)
+    else:
+        svec = torch.tensor(1.0 if s is None else float(s))
+        smax = 1.0 if s is None else abs(float(s))
+    base = 1.0 if prm["normalized"] else 1.0 / (h_ * w_)
+    factor = base * smax
+    ref = grad * base * svec
     scale = float(ref.norm()) + factor * float(S.abs().max()) * math.sqrt(c_) * (float(y.norm()) + float(S.abs().max()) *
                                                                               math.sqrt(c_) * float(x.norm())) * 1e-2 + 1e-12
     err = float((out - ref).norm()) / scale
@@ -462,7 +579,7 @@ def _loglik_case(prm: dict):
     # consistent data
     with torch.no_grad():
         y0 = A(x)
-        out0 = blk(x.permute(0, 3, 1, 2), y0, S, m, None if s is None else torch.tensor([s]))
+        out0 = blk(x.permute(0, 3, 1, 2), y0, S, m, st)
         scale0 = factor * float(S.abs().max()) * math.sqrt(c_) * float(y0.norm()) + 1e-12
     err0 = float(out0.norm()) / scale0
     if not err0 <= 1e-4:
@@ -494,7 +611,9 @@ def _cg_case(prm: dict):
 
     n_, c_, h_, w_ = prm["shape"]
     g = torch.Generator().manual_seed(prm["seed"])
-    fop, bop = _ops(prm["centered"], True)
+    normalized = prm.get("normalized", True)
+    fop, bop = _ops(prm["centered"], normalized)
+    cfac = 1.0 if normalized else 1.0 / (h_ * w_)      # backward = cfac · adjoint(forward)
     S = torch.randn(n_, c_, h_, w_, 2, generator=g) * prm.get("sens_scale", 1.0)
     y = torch.randn(n_, c_, h_, w_, 2, generator=g)
     z = torch.randn(n_, h_, w_, 2, generator=g)
@@ -510,8 +629,8 @@ def _cg_case(prm: dict):
     sol = []
     for b_ in range(n_):
         A = As[b_]
-        B = A.conj().T @ A + lam64 * torch.eye(npx, dtype=torch.complex128)
-        sol.append(torch.linalg.solve(B, A.conj().T @ yc[b_] + lam64 * zc[b_]))
+        B = cfac * (A.conj().T @ A) + lam64 * torch.eye(npx, dtype=torch.complex128)
+        sol.append(torch.linalg.solve(B, cfac * (A.conj().T @ yc[b_]) + lam64 * zc[b_]))
     sol = torch.stack(sol)
 
     def objective(x):          # float64, per batch element summed
@@ -522,7 +641,7 @@ def _cg_case(prm: dict):
             Ax = As[b_] @ xc[b_]
             mask_rows = torch.view_as_complex(torch.where(m[b_:b_ + 1] == 0, torch.tensor([0.0]), y[b_:b_ + 1]).contiguous()
                                               ).reshape(-1).to(torch.complex128)
-            tot += 0.5 * float((Ax - mask_rows).abs().pow(2).sum()) + 0.5 * lam64 * float((xc[b_] - zc[b_]).abs().pow(2).sum())
+            tot += 0.5 * cfac * float((Ax - mask_rows).abs().pow(2).sum()) + 0.5 * lam64 * float((xc[b_] - zc[b_]).abs().pow(2).sum())
         return tot
 
     fails = []
@@ -546,9 +665,9 @@ def _cg_case(prm: dict):
     ref = []
     for b_ in range(n_):
         A = As[b_]
-        B = A.conj().T @ A + lam64 * torch.eye(npx, dtype=torch.complex128)
+        B = cfac * (A.conj().T @ A) + lam64 * torch.eye(npx, dtype=torch.complex128)
         xr = x0c[b_].clone()
-        r = A.conj().T @ yc[b_] + lam64 * zc[b_] - B @ xr
+        r = cfac * (A.conj().T @ yc[b_]) + lam64 * zc[b_] - B @ xr
         pdir = r.clone()
         its = []
         for k in range(kmax):
@@ -604,7 +723,7 @@ def _cg_case(prm: dict):
         def objective_z(x, zc_):
             xc = torch.view_as_complex(x.contiguous()).reshape(npx).to(torch.complex128)
             my = torch.view_as_complex(torch.where(m == 0, torch.tensor([0.0]), y).contiguous()).reshape(-1).to(torch.complex128)
-            return 0.5 * float((As[0] @ xc - my).abs().pow(2).sum()) + 0.5 * lam64 * float((xc - zc_).abs().pow(2).sum())
+            return 0.5 * cfac * float((As[0] @ xc - my).abs().pow(2).sum()) + 0.5 * lam64 * float((xc - zc_).abs().pow(2).sum())
 
         zfc = torch.view_as_complex(zf).reshape(npx).to(torch.complex128)
         e_start, e_out = objective_z(zf, zfc), objective_z(xf, zfc)
@@ -621,7 +740,7 @@ def _cg_case(prm: dict):
         tot = 0.0
         for b_ in range(n_):
             A = As[b_]
-            r = A.conj().T @ yc[b_] + lam64 * zc[b_] - (A.conj().T @ (A @ xc[b_]) + lam64 * xc[b_])
+            r = cfac * (A.conj().T @ yc[b_]) + lam64 * zc[b_] - (cfac * (A.conj().T @ (A @ xc[b_])) + lam64 * xc[b_])
             tot += math.sqrt(float(r.abs().pow(2).sum()))
         return tot / (2 * n_)
 
@@ -639,6 +758,125 @@ def _cg_case(prm: dict):
     return fails, info
 
 
+def _cg_batch_case(prm: dict):
+    """batch of B samples: the block must return, for ALL samples, the iterate of ONE common pass count j (the first pass at
+    which the batch mean of sqrt|<r,r>| is below tol), and every sample must be no worse than its start"""
+    from direct.nn.conjgradnet.conjgrad import CGUpdateType, ConjGrad
+
+    n_, c_, h_, w_ = prm["shape"]
+    g = torch.Generator().manual_seed(prm["seed"])
+    fop, bop = _ops(prm["centered"], True)
+    S = torch.randn(n_, c_, h_, w_, 2, generator=g)
+    # very different sample magnitudes make the batch mean differ from every per-sample statistic
+    scale = torch.tensor([prm["spread"] ** (b_ / max(n_ - 1, 1)) for b_ in range(n_)]).reshape(-1, 1, 1, 1)
+    y = torch.randn(n_, c_, h_, w_, 2, generator=g) * scale.unsqueeze(1)
+    z = torch.randn(n_, h_, w_, 2, generator=g) * scale
+    x0 = torch.randn(n_, h_, w_, 2, generator=g) * scale
+    m = _make_mask(prm["mask"], (n_, c_, h_, w_), g)
+    lam = torch.tensor([float(prm["lam"])])
+    upd = CGUpdateType(prm["update"])
+    npx = h_ * w_
+    nmax = npx + 4
+    As = _dense_A(fop, S, m, (n_, c_, h_, w_))
+    yc = torch.view_as_complex(y.contiguous()).reshape(n_, c_ * npx).to(torch.complex128)
+    zc = torch.view_as_complex(z.contiguous()).reshape(n_, npx).to(torch.complex128)
+    lam64 = float(lam)
+
+    def cplx(x):
+        return torch.view_as_complex(x.contiguous()).reshape(n_, npx).to(torch.complex128)
+
+    def resid_norm(xc, b_):
+        A = As[b_]
+        return math.sqrt(float((A.conj().T @ yc[b_] + lam64 * zc[b_] - (A.conj().T @ (A @ xc[b_]) + lam64 * xc[b_])).abs().pow(2).sum()))
+
+    def objective(xc, b_):
+        my = torch.view_as_complex(torch.where(m[b_:b_ + 1] == 0, torch.tensor([0.0]), y[b_:b_ + 1]).contiguous()).reshape(-1).to(torch.complex128)
+        return 0.5 * float((As[b_] @ xc[b_] - my).abs().pow(2).sum()) + 0.5 * lam64 * float((xc[b_] - zc[b_]).abs().pow(2).sum())
+
+    x0c = cplx(x0)
+    stat0 = sum(resid_norm(x0c, b_) for b_ in range(n_)) / (2 * n_)
+    tol = prm["tol_frac"] * stat0
+    with torch.no_grad():
+        xb = ConjGrad(fop, bop, num_iters=nmax, tol=tol, bk_update_type=upd).cg(x0, y, S, m, lam, z)
+        # the iterates of each sample ON ITS OWN (batch of one, no stopping)
+        singles = [[ConjGrad(fop, bop, num_iters=j, tol=0.0, bk_update_type=upd).cg(
+            x0[b_:b_ + 1], y[b_:b_ + 1], S[b_:b_ + 1], m[b_:b_ + 1], lam, z[b_:b_ + 1]) for j in range(nmax + 1)] for b_ in range(n_)]
+    fails, info = [], {"tol": tol}
+    # the common pass count
+    best = None
+    for j in range(nmax + 1):
+        dev = max(float((xb[b_:b_ + 1] - singles[b_][j]).norm()) / (float(singles[b_][j].norm()) + float(x0[b_:b_ + 1].norm()) + 1e-12)
+                  for b_ in range(n_))
+        if best is None or dev < best[1]:
+            best = (j, dev)
+    j, dev = best
+    info.update({"pass": j, "deviation_from_common_iterate": dev})
+    if not dev <= 2e-3:
+        fails.append(("cg-batch-not-a-common-iterate", f"batch output is not the j-th iterate of every sample for any single j "
+                                                       f"(best j = {j}, deviation {dev:.3g})"))
+        return fails, info
+    xbc = cplx(xb)
+    # the stopping rule: mean statistic below tol at pass j (unless j = num_iters), not below at earlier passes (with slack)
+    def stat_at(jj):
+        return sum(resid_norm(cplx(torch.cat([singles[b_][jj] for b_ in range(n_)])), b_) for b_ in range(n_)) / (2 * n_)
+    if j < nmax and not stat_at(j) <= tol * 1.02 + 1e-6 * stat0:
+        fails.append(("cg-batch-stop", f"loop left at pass {j} but the batch-mean statistic {stat_at(j):.4g} is not below tol {tol:.4g}"))
+    for jj in range(1, j):
+        if stat_at(jj) < tol * 0.98 - 1e-6 * stat0:
+            fails.append(("cg-batch-stop", f"batch-mean statistic {stat_at(jj):.4g} already below tol {tol:.4g} at pass {jj} < {j}"))
+            break
+    # per sample: never worse than its own start
+    for b_ in range(n_):
+        e0, e1 = objective(x0c, b_), objective(xbc, b_)
+        if not e1 <= e0 + 1e-4 * (abs(e0) + 1.0):
+            fails.append((f"cg-batch-worse-than-start-{prm['update']}", f"sample {b_}: objective {e1:.6g} exceeds its start {e0:.6g}"))
+            break
+    return fails, info
+
+
+def _three_d_notes():
+    """what the two blocks do with 3-D (slice/time) inputs — recorded, and checked where the block accepts them"""
+    from direct.nn.conjgradnet.conjgrad import ConjGrad
+    from direct.nn.rim.rim import MRILogLikelihood
+
+    fop, bop = _ops(True, True)
+    g = torch.Generator().manual_seed(7)
+    out = []
+    # MRILogLikelihood hard-codes a 4-D image (`permute(0, 2, 3, 1)`) and dims (2, 3)
+    try:
+        MRILogLikelihood(fop, bop)(torch.randn(1, 2, 2, 4, 4, generator=g), torch.randn(1, 2, 2, 4, 4, 2, generator=g),
+                                   torch.randn(1, 2, 2, 4, 4, 2, generator=g), torch.ones(1, 1, 1, 4, 4, 1, dtype=torch.bool))
+        out.append({"three_d": "MRILogLikelihood unexpectedly accepted a 5-D image"})
+    except Exception as e:  # noqa: BLE001
+        out.append({"three_d": f"MRILogLikelihood rejects volumes (5-D image): {err_name(e)} — 2-D only, dims (2, 3) fixed"})
+    # ConjGrad runs on (N, C, D, H, W, 2) but transforms axes (2, 3) = (slice, height): still an SPD system; check it solves IT
+    n_, c_, d_, h_, w_ = 1, 2, 2, 3, 2
+    S = torch.randn(n_, c_, d_, h_, w_, 2, generator=g)
+    y = torch.randn(n_, c_, d_, h_, w_, 2, generator=g)
+    z = torch.randn(n_, d_, h_, w_, 2, generator=g)
+    m = torch.rand(n_, 1, 1, h_, w_, 1, generator=g) < 0.6
+    lam = torch.tensor([0.7])
+    blk = ConjGrad(fop, bop, num_iters=60, tol=1e-7)
+    with torch.no_grad():
+        xs = blk(y, S, m, z, lam)
+        npx = d_ * h_ * w_
+        eye = torch.zeros(npx, d_, h_, w_, 2)
+        for j in range(npx):
+            eye.view(npx, npx, 2)[j, j, 0] = 1.0
+        Bcols = blk.B_op(eye, S.expand(npx, -1, -1, -1, -1, -1), m, lam)
+        B = torch.view_as_complex(Bcols.contiguous()).reshape(npx, npx).T.to(torch.complex128)
+        rhs = torch.view_as_complex((blk._A_star_op(y, S, m) + lam * z).contiguous()).reshape(npx).to(torch.complex128)
+        sol = torch.linalg.solve(B, rhs)
+    r = float((torch.view_as_complex(xs.contiguous()).reshape(npx).to(torch.complex128) - sol).norm()) / float(sol.norm())
+    herm = float((B - B.conj().T).abs().max())
+    out.append({"three_d": f"ConjGrad accepts (N, C, D, H, W, 2) but applies the operators over axes (2, 3) = (slice, height); the system "
+                           f"it builds is Hermitian (asymmetry {herm:.2g}) and it solves it (relative error {r:.2g} vs dense solve)"})
+    if not (r <= 2e-3 and herm <= 1e-4):
+        out.append(Violation("cg-3d", f"ConjGrad on a volume does not solve its own (Hermitian) system: rel {r:.3g}, asymmetry {herm:.3g}",
+                             {"op": "cg3d"}))
+    return out
+
+
 def oracle(ctx: Ctx, deep: bool = False):
     rng = ctx.rng
     big = deep or ctx.thorough
@@ -650,8 +888,10 @@ def oracle(ctx: Ctx, deep: bool = False):
         prm = {"op": "loglik", "shape": [rng.choice([1, 1, 2, 3]), rng.choice([1, 2, 3, 4]), h_, w_],
                "seed": rng.randrange(2 ** 31), "centered": rng.random() < 0.5, "normalized": rng.random() < 0.75,
                "mask": rng.choice(["empty", "full", "random", "random", "columns"]),
-               "scaling": rng.choice([None, None, 0.5, 3.0, 0.01]), "sens_scale": rng.choice([1.0, 1.0, 0.2, 5.0]),
+               "scaling": rng.choice([None, None, 0.5, 3.0, 0.01, "per-sample"]), "sens_scale": rng.choice([1.0, 1.0, 0.2, 5.0]),
                "premask": rng.random() < 0.5}
+        if prm["scaling"] == "per-sample":
+            prm["scaling"] = [rng.choice([0.25, 0.5, 1.0, 2.0, 3.0]) for _ in range(prm["shape"][0])]
         try:
             fails, info = _loglik_case(prm)
         except Exception as e:  # noqa: BLE001 - a well-formed problem must not raise
@@ -671,17 +911,64 @@ def oracle(ctx: Ctx, deep: bool = False):
         prm = {"op": "cg", "shape": [rng.choice([1, 1, 2]), rng.choice([1, 2, 3]), h_, w_], "seed": rng.randrange(2 ** 31),
                "centered": rng.random() < 0.5, "mask": rng.choice(["empty", "full", "random", "random", "columns"]),
                "lam": min(max(lam, 0.05), 10.0), "update": "FR" if i % 2 == 0 else "PRP",
-               "sens_scale": rng.choice([1.0, 1.0, 0.3, 2.0])}
+               "sens_scale": rng.choice([1.0, 1.0, 0.3, 2.0]), "normalized": rng.random() < 0.8}
         try:
             fails, info = _cg_case(prm)
         except Exception as e:  # noqa: BLE001
             fails, info = [("cg-raises", f"ConjGrad raises {err_name(e)} on a well-formed problem: {e}"[:300])], {}
         ctx.count(("cg", tuple(prm["shape"]), prm["seed"]), h_ * w_ >= 2 and prm["mask"] != "empty",
                   sample={"op": "oracle/cg", **{k: prm[k] for k in ("shape", "centered", "mask", "lam", "update")}, **info},
-                  bucket=f"oracle/cg/{prm['update']}/{'centred' if prm['centered'] else 'uncentred'}/mask={prm['mask']}/"
+                  bucket=f"oracle/cg/{prm['update']}/{'centred' if prm['centered'] else 'uncentred'}/"
+                         f"{'normalised' if prm['normalized'] else 'unnormalised'}/mask={prm['mask']}/"
                          f"lam={'<0.5' if prm['lam'] < 0.5 else '<3' if prm['lam'] < 3 else '>=3'}")
         for key, what in fails:
             yield Violation(key, what, {**prm, "observed": info})
+
+    # ---- ConjGrad on a batch: one common pass count (batch-mean stopping rule), per sample never worse
+    n_b = 120 if big else 16
+    for i in range(n_b):
+        h_, w_ = rng.choice([(2, 2), (2, 3), (4, 4), (3, 5)])
+        lam = round(math.exp(rng.uniform(math.log(0.05), math.log(10.0))), 4)
+        prm = {"op": "cgbatch", "shape": [rng.choice([2, 3]), rng.choice([1, 2, 3]), h_, w_], "seed": rng.randrange(2 ** 31),
+               "centered": rng.random() < 0.5, "mask": rng.choice(["full", "random", "random", "columns"]),
+               "lam": min(max(lam, 0.05), 10.0), "update": "FR" if i % 2 == 0 else "PRP", "tol_frac": rng.choice([0.02, 0.1, 0.3]),
+               "spread": rng.choice([1.0, 10.0, 100.0])}
+        try:
+            fails, info = _cg_batch_case(prm)
+        except Exception as e:  # noqa: BLE001
+            fails, info = [("cg-raises", f"ConjGrad raises {err_name(e)} on a well-formed batch: {e}"[:300])], {}
+        ctx.count(("cgb", tuple(prm["shape"]), prm["seed"]), True, sample={"op": "oracle/cgbatch", **info},
+                  bucket=f"oracle/cgbatch/{prm['update']}/B={prm['shape'][0]}/stop_pass={info.get('pass', '?')}")
+        for key, what in fails:
+            yield Violation(key, what, {**prm, "observed": info})
+    # ---- phase 2: every re-implementation of the physics inside the unrolled models / engines
+    from props import c19_sites
+
+    rounds = 40 if big else 6
+    counts: dict[str, int] = {}
+    for r in range(rounds):
+        seed = rng.randrange(2 ** 31)
+        centered = rng.random() < 0.5
+        mk = rng.choice(["random", "random", "full", "empty"])
+        for name, fn in c19_sites.SITE_CHECKS:
+            prm = {"op": "site", "site": name, "seed": seed, "centered": centered, "mask": mk}
+            try:
+                n, fails = fn(seed, centered, mk)
+            except Exception as e:  # noqa: BLE001
+                n, fails = 0, [(f"site-{name}-raises", f"{name}: {err_name(e)}: {e}"[:300])]
+            counts[name] = counts.get(name, 0) + n
+            ctx.count(("site", name, seed), mk != "empty", bucket=f"oracle/site/{name}/mask={mk}")
+            for key, what in fails:
+                yield Violation(key, what, prm)
+    ctx.notes.append({"site_table": [dict(zip(("site", "file", "model_form", "relation_to_data_fidelity", "bridge_lemmas", "oracle"), row))
+                                     for row in c19_sites.SITE_TABLE],
+                      "site_relations_checked_on_real_modules": counts})
+    # ---- 3-D (slice/time) inputs
+    for note in _three_d_notes():
+        if isinstance(note, Violation):
+            yield note
+        else:
+            ctx.notes.append(note)
 
 
 def replay(rep: dict) -> bool:
@@ -692,6 +979,14 @@ def replay(rep: dict) -> bool:
             return bool(_loglik_case(prm)[0])
         if rep.get("op") == "cg":
             return bool(_cg_case(prm)[0])
+        if rep.get("op") == "cgbatch":
+            return bool(_cg_batch_case(prm)[0])
+        if rep.get("op") == "site":
+            from props import c19_sites
+            fn = dict(c19_sites.SITE_CHECKS)[rep["site"]]
+            return bool(fn(rep["seed"], rep["centered"], rep["mask"])[1])
+        if rep.get("op") == "cg3d":
+            return any(isinstance(v, Violation) for v in _three_d_notes())
     except Exception:  # noqa: BLE001
         return True
     return True
